@@ -26,7 +26,14 @@ world (any other radios, FIFOs, air, fault list), after each call:
    the low bytes of both RX_ADDR_P0 and TX_ADDR;
  * (3) `listen = v` leaves CE at `v`, no other call changes CE; CE is high exactly in the RX role;
    the radio never logged a PRIM_RX change with CE high;
- * the model's `_pipe0_read_addr` equals the ghost `user0`. -/
+ * the model's `_pipe0_read_addr` equals the ghost `user0`.
+PREFIX-ONLY address clause (weaker than the property text "listens on the address the user last opened it
+with … never on the TX address"): `RxEntryOk` / `TxReady` (Spec/Pipe0.lean) require the user's address
+`a` only as the LOW `len(a)` bytes of RX_ADDR_P0 (`reg.take a.length = a`).  With a 3-byte
+`open_rx_pipe(0, A1A2A3)` at address width 5, after an `open_tx_pipe(0102030405)` round trip the
+register is `[A1, A2, A3, 04, 05]`: the 5-byte address the chip matches has changed and ends in
+TX-address bytes, yet the invariant holds (the file's own example below).  The clause is the full
+statement only for addresses as long as the address width (`aw ≤ |a|`). -/
 theorem C08_history (ops : List Op) (s : DrvState) (u : Option Bytes) (hops : ∀ op ∈ ops, op.Valid)
     (hinv : Inv8 s u) (hlog : RoleLogClean s.radio) : Holds8 ops s u :=
   holds8_of_inv ops s u hops hinv hlog
@@ -45,7 +52,11 @@ theorem C08_user0_is_shadow (ops : List Op) (s : DrvState) (u : Option Bytes) (h
     (hinv : Inv8 s u) : (runOps ops s).d.pipe0ReadAddr = user0After u ops :=
   (C08_invariant ops s u hops hinv).user
 
-/-- **The start state.**  Right after `__enter__` of ANY object whose shadows are in range, which is
+/-- HYPOTHESES (not "any in-range object"): `htx` — the CONFIG shadow is in the TX role
+(`d.config &&& 1 = 0`); an object that left its previous block listening re-enters with PRIM_RX = 1 and
+CE low, so `CeMatchesRole` is false and the theorem does not apply; `huser` — `_pipe0_read_addr`, if set,
+is 1..5 bytes and pipe 0 is open in the shadow; `hlog` — the radio's role log is clean.
+**The start state.**  Right after `__enter__` of ANY object whose shadows are in range, which is
 in the TX role and whose `_pipe0_read_addr` is consistent with its open-pipes shadow (in particular
 every freshly constructed object: `None`), in ANY world with the object's radio in it: the
 invariant holds with `user0 = _pipe0_read_addr`, CE is low, and — if the radio's role log was clean —
@@ -78,7 +89,8 @@ theorem C08_ce_untouched (op : Op) (s : DrvState) (u : Option Bytes) (hv : op.Va
   have h := (step_ok op s u hinv hv).1.noCE hnl
   exact ⟨h, h.ce_eq hinv.wf⟩
 
-/-- (2) is the ACK-reception condition of the air model (`Air.lean`, `attemptLoop`: pipe 0 enabled and
+/-- needs `haw : aw ≤ |t|`: with a 3-byte TX address at address width 5, `canHear` is false while `TxReady` holds.
+(2) is the ACK-reception condition of the air model (`Air.lean`, `attemptLoop`: pipe 0 enabled and
 `RX_ADDR_P0[0:aw] = TX_ADDR[0:aw]`) whenever the address width does not exceed `|t|` -/
 theorem C08_txready_canhear (r : Radio) (t : Bytes) (h : TxReady t r) (hrole : r.config &&& 1 = 0)
     (haa : r.enAA &&& 1 ≠ 0) (haw : r.aw ≤ t.length) :
@@ -100,7 +112,12 @@ theorem C08_ack_core (w : World) (a b : Nat) (k : Packet) (left made : Nat) (hf 
   obtain ⟨x, hx⟩ := Option.isSome_iff_exists.mp h.2
   exact ⟨x, by rw [h.1, hx]⟩
 
-/-- **C08_ack.**  From any state of the invariant, right after `open_tx_pipe(t)`: if the radio is in
+/-- HYPOTHESES ("ACKs are received after `open_tx_pipe`" holds only under ALL of them): TX role and
+auto-ack on pipe 0; address width `aw ≤ |t|` (full-width TX address); both FIFOs of the sender empty;
+ACK payloads off (`feature &&& 2 = 0`); loss-free air (`faults = []`); a payload `write()` accepts; a
+listening peer with FIFO room (`PeerListens`).  Outside them (short TX address, pending payloads, ACK
+payloads on, lossy air) nothing is claimed.
+**C08_ack.**  From any state of the invariant, right after `open_tx_pipe(t)`: if the radio is in
 the TX role with auto-ack on pipe 0 (the premise of (2)), the address width does not exceed `|t|`,
 the sender is idle (both FIFOs empty) with ACK payloads off, the air is loss-free, the payload is
 one `write()` accepts, and some other radio `b` is a listening peer for it (`PeerListens`: RX mode,
